@@ -24,6 +24,13 @@ FAMILIES = {
     'l1.perm': dict(module='MC_L1', fam='perm', walker='l1-walk', scale=U63,
                     invariants=[], properties=['P_GrantOnlyIf'],
                     failcap=dict(quick=1, thorough=2), timeout=dict(quick=420, thorough=3000)),
+    'l1.trees': dict(module='MC_L1', fam='trees', walker='l1-walk', scale=U63,
+                     invariants=[], properties=['P_Soundness', 'P_EscrowDelta', 'P_NoEffectOnReject'],
+                     failcap=dict(quick=1, thorough=2), timeout=dict(quick=420, thorough=3000)),
+    # ---- both chains + off-chain roles (Bridge.tla) --------------------------------------------
+    'br.one': dict(module='MC_Bridge', fam='one', walker='bridge-walk', scale=U63,
+                   invariants=['Inv_Solvency', 'Inv_Completeness', 'Inv_NoStuck', 'Inv_Holdings', 'Inv_DrainedOK'], properties=[],
+                   failcap=dict(quick=1, thorough=2), timeout=dict(quick=420, thorough=3000)),
     # ---- L2 (x/opchild) -----------------------------------------------------------------------
     'l2.relay': dict(module='MC_L2', fam='relay', walker='l2-walk', scale=U63,
                      invariants=['Inv_Supply'], properties=['P_Relay', 'P_NoEffectOnReject'],
@@ -48,6 +55,12 @@ FAMILIES = {
     'or.disabled': dict(module='MC_Oracle', fam='disabled', walker='oracle-walk', scale='1',
                         invariants=[], properties=['P_Oracle', 'P_NoEffectOnReject'],
                         failcap=dict(quick=1, thorough=2), timeout=dict(quick=300, thorough=2400)),
+    # ---- determinism (C18): K fresh instances on behaviours of the other models; Agreement checked by TLC on the recorded trace
+    'det.replicas': dict(kind='replicas', module='Replicas', trace_module='Trace_Replicas',
+                         sources=dict(quick=[('val.valset', 'val'), ('val.plan', 'val'), ('or.oracle', 'oracle'), ('l2.deposit', 'l2'), ('l1.auth', 'l1')],
+                                      thorough=[('val.valset', 'val'), ('val.plan', 'val'), ('or.oracle', 'oracle'), ('l2.deposit', 'l2'), ('l2.auth', 'l2'), ('l1.auth', 'l1'), ('l1.ledger', 'l1'), ('l1.perm', 'l1')]),
+                         consts=dict(quick=dict(paths=40, length=30, replicas=4), thorough=dict(paths=400, length=60, replicas=8)),
+                         invariants=['Agreement'], properties=[], timeout=dict(quick=300, thorough=3000)),
     # ---- formats / purity (C17): enumeration of a TLA+-defined function and replay --------------
     'fmt.formats': dict(kind='formats', module='MC_Formats', sm_module='SliceMem',
                         consts=dict(quick=dict(MaxTree=9, MaxProof=6, NItems=3, rounds=60), thorough=dict(MaxTree=16, MaxProof=8, NItems=4, rounds=1500)),
@@ -61,9 +74,11 @@ PROPERTIES = {
     'C01': dict(families=['l1.ledger'], title='L1 escrow conservation and isolation'),
     'C02': dict(families=['l1.claims'], title='withdrawal paid at most once'),
     'C03': dict(families=['l1.claims'], title='withdrawals cannot be forged'),
+    'C04': dict(families=['br.one', 'l1.trees'], title='every recorded withdrawal can be claimed'),
     'C05': dict(families=['l1.oracle'], title='challenge window / finality'),
     'C06': dict(families=['l2.relay', 'l2.deposit'], title='L2 credits each deposit exactly once, in order'),
     'C07': dict(families=['l2.deposit'], title='deposit neither lost nor blocking; hooks contained'),
+    'C08': dict(families=['br.one'], title='end-to-end solvency'),
     'C09': dict(families=['l2.deposit'], title='L2 bridged supply conserved'),
     'C10': dict(families=['l1.ledger'], title='L1 deposit sequences / events'),
     'C11': dict(families=['l1.oracle', 'l1.ledger'], title='output oracle log structure'),
@@ -74,5 +89,6 @@ PROPERTIES = {
     'C16': dict(families=['l1.ledger', 'l2.deposit', 'val.valset'], title='genesis round trip'),
     'C17': dict(families=['fmt.formats'], title='commitment formats and purity'),
     'C20': dict(families=['ante.cases'], title='mempool admission'),
+    'C18': dict(families=['det.replicas'], title='state transitions are deterministic'),
     'C19': dict(families=['l1.perm'], title='permissioned IBC channel admin'),
 }
